@@ -8,6 +8,7 @@ import (
 	"go/ast"
 	"go/token"
 	"go/types"
+	"rscheck/rules/reent"
 
 	"golang.org/x/tools/go/cfg"
 
@@ -36,7 +37,16 @@ var Def = driver.PropDef{
 	Run:        Run,
 }
 
+func reentrant(c *core.Ctx) {
+	var roots []*core.Fn
+	if f := c.FuncOpt("redis-shake/common", "", "RestoreRdbEntry"); f != nil {
+		roots = append(roots, f)
+	}
+	reent.Check(c, "R6.reentrant", roots, []string{"redis-shake/common", "pkg/rdb", "redis-shake/filter"}, "the parallel full-sync / restore workers")
+}
+
 func Run(c *core.Ctx) {
+	defer reentrant(c)
 	if f := c.Func(pkgSync, "DbSyncer", "syncRDBFile"); f != nil {
 		pool(c, f, "syncRDBFile")
 	}
